@@ -99,7 +99,9 @@ def run(ctx):
                               dict(kind="pair", pair=pair, table=table))
                 break
         if not reproduced:
-            raise MachineryError("TLC predicts %s with lock table %s / nesting %s but the targeted runs %s did not reproduce it" % (
+            # the measured protocol differs from the mechanism spec but no real execution misbehaved: a DRIFT note
+            # (e.g. a lock-free method that is correct by other means); the remaining verdict sources still run.
+            ctx.note("DRIFT: TLC predicts %s with lock table %s / nesting %s; targeted runs %s did not reproduce it - not a verdict" % (
                 "a deadlock" if pr["a"] == "deadlock" else "a race for %s,%s" % (pr["a"], pr["b"]), table, nested, pairs))
 
     # ---- 3. plain stress under the race detector --------------------------------------------------
